@@ -214,23 +214,14 @@ def run(ctx, rep) -> None:
     rep.floor("durable status writes examined", n_w, 25)
 
     # ---- R3 ----------------------------------------------------------------------------------------
-    rb = prog.func("stabilize.events.replay", "EventReplayer.rebuild_workflow_state").node
-    t = norm(rb)
-    def _is_snapshot_seq(e) -> bool:
-        """`snapshot.sequence`, possibly through a value-preserving wrapper (int(...))"""
-        while isinstance(e, ast.Call) and isinstance(e.func, ast.Name) and e.func.id == "int" and len(e.args) == 1:
-            e = e.args[0]
-        return norm(e) == "snapshot.sequence"
-
-    snap_guard = [n for n in ast.walk(rb) if isinstance(n, ast.If) and "snapshot.sequence <= as_of_sequence" in norm(n.test) and "as_of_sequence is None" in norm(n.test)]
-    ok = bool(snap_guard) and any(isinstance(s_, ast.Assign) and norm(s_.targets[0]) == "start_sequence" and _is_snapshot_seq(s_.value) for s_ in snap_guard[0].body) \
-        and any("_load_state_from_snapshot(snapshot)" in norm(s_) for s_ in snap_guard[0].body)
-    rep.check(ok, "C12.R3", "a snapshot is used only if it is not newer than the cut", "if snapshot and (as_of is None or snapshot.sequence <= as_of): state = load(snapshot); start = snapshot.sequence", "src/stabilize/events/replay.py", snap_guard[0].lineno if snap_guard else rb.lineno, disc="snapshot-guard")
-    filt = [n for n in ast.walk(rb) if isinstance(n, ast.ListComp) and any(norm(c) == "e.sequence <= as_of_sequence" for g in n.generators for c in g.ifs)]
-    rep.check(bool(filt) and "get_events_for_workflow(workflow_id, start_sequence)" in t, "C12.R3", "only events up to the cut are applied, starting after the snapshot", "[e for e in get_events_for_workflow(id, start) if e.sequence <= as_of]", "src/stabilize/events/replay.py", filt[0].lineno if filt else rb.lineno, disc="filter")
-    rep.check(t.count("get_events_for_workflow(workflow_id, start_sequence)") == 2 and "start_sequence = 0" in t, "C12.R3", "full replay reads from the snapshot's sequence (0 without snapshot)", "", "src/stabilize/events/replay.py", rb.lineno, disc="start")
-    loop = [n for n in ast.walk(rb) if isinstance(n, ast.For) and norm(n.iter) == "events" and any("self._apply_event(state, event)" in norm(s_) for s_ in n.body)]
-    rep.check(bool(loop) and not any(isinstance(x, (ast.If, ast.Break, ast.Continue)) for x in ast.walk(loop[0])), "C12.R3", "every selected event is applied, in order", "for event in events: self._apply_event(state, event)", "src/stabilize/events/replay.py", loop[0].lineno if loop else rb.lineno, disc="apply-all")
+    rbf = prog.func("stabilize.events.replay", "EventReplayer.rebuild_workflow_state")
+    rb = rbf.node
+    from ..cutmodel import analyse
+    probs = analyse(rb)
+    for desc, what in probs:
+        rep.fail("C12.R3", f"as_of cut: {desc}", what, rbf.file, rb.lineno, disc=f"cut:{desc}:{what[:40]}")
+    rep.check(not probs, "C12.R3", "as_of cut decided by case split", "as_of in {None, 0, positive} x snapshot store / snapshot found / snapshot.sequence <= as_of: events filtered by e.sequence <= as_of exactly when a cut is given (0 included), "
+              "a snapshot is loaded only when not newer than the cut, events are read from the loaded snapshot's sequence (else 0), every selected event is applied", rbf.file, rb.lineno, disc="cut-model")
     q = [s for s in sqlshape.statements(prog) if s.func.qualname == "SqliteEventStoreMixin.get_events_for_workflow" and s.kind == "SELECT"]
     ok = bool(q) and any(w.replace(" ", "") == "sequence>?" for w in q[0].where) and q[0].order_by in ("sequence asc", "sequence") and any("workflow_id" in w for w in q[0].where)
     rep.check(ok, "C12.R3", "events are read strictly after the start sequence, ascending", f"where {q[0].where if q else None} order by {q[0].order_by if q else None}", q[0].file if q else "", q[0].line if q else 0, disc="query")
